@@ -8,7 +8,16 @@ mimetypes.init()
 
 ID = "C28"
 LEAN_TARGETS = ["TornadoModel.C28.Props"]
-THEOREMS = []
+THEOREMS = [
+    "TornadoModel.C28.sameSitePath_eq",
+    "TornadoModel.C28.slash_redirect_same_site",
+    "TornadoModel.C28.handleDeco_slash_same_site",
+    "TornadoModel.C28.static_redirect_same_site",
+    "TornadoModel.C28.static_handle_redirect_same_site",
+    "TornadoModel.C28.quotePlus_encoded",
+    "TornadoModel.C28.login_redirect_is_login_url",
+    "TornadoModel.C28.sameSite_not_offsite",
+]
 TRUSTED = [
     "routing through `(.*)`, `/(.*)`, `/*(.*)`, `<prefix>(.*)` is modelled as the captured group (C26.capture); argument decoding as in C26",
     "urllib.parse.urlencode/quote_plus and urlsplit(login_url).scheme (computed by the harness for the configured login URL) as modelled in C28/Model.lean",
@@ -24,10 +33,10 @@ RULE = ("request targets built from leading '/', '//', '/\\\\', '\\\\\\\\', '%2f
         "StaticFileHandler with default_filename; non-trivial = the response is a redirect or a refusal caused by the redirect guard; distinct by canonical JSON")
 EXHAUSTIVE = {"quick": False, "thorough": False}
 CLAUSES = {
-    "removeslash/addslash Location is a path on the same host": "slash_redirect_same_site (+ slash_redirect_shape)",
-    "static-directory redirect Location is a path on the same host": "static_redirect_same_site",
+    "removeslash/addslash Location is a path on the same host": "slash_redirect_same_site + handleDeco_slash_same_site (whole request through any catch-all pattern)",
+    "static-directory redirect Location is a path on the same host": "static_redirect_same_site + static_handle_redirect_same_site (every config, path, filesystem)",
     "never scheme-qualified or protocol-relative": "sameSite_not_offsite (what Spec.sameSite excludes)",
-    "authenticated redirects only to the configured login URL": "login_redirect_is_login_url (+ quotePlus_encoded)",
+    "authenticated redirects only to the configured login URL": "login_redirect_is_login_url + quotePlus_encoded (request text below U+0800: only unreserved/%/+ characters after ?next=)",
 }
 PARALLEL = True
 CASE_TIMEOUT = 120
